@@ -1,5 +1,5 @@
 // C14_m3.cpp -- 3x3 matrices.
-//  unary laws: every matrix over {-1,0,1} (3^9 = 19683);
+//  unary laws: every matrix over {-1,0,1} (3^9 = 19683), thorough: over {-1,0,1,2} (4^9 = 262144);
 //  pairs: the structured family S3 = all matrices with <= 3 non-zero entries from {-1,1}
 //         + permutation matrices + elementary matrices (transvections I+-E_ij, row scalings);
 //  triples: the sub-family with <= 2 (quick: <= 1) non-zero entries + permutations + elementary.
@@ -14,6 +14,7 @@ namespace c14
 namespace
 {
 std::vector<rmat<3, 3>> fam3_all() { return all_over<3, 3>({-1, 0, 1}); }
+std::vector<rmat<3, 3>> fam3_unary() { return vrt::thorough() ? all_over<3, 3>({-1, 0, 1, 2}) : fam3_all(); }
 std::vector<rmat<3, 3>> fam3_struct(int maxnz)
 {
   return concat_unique<rmat<3, 3>>({sparse_over<3, 3>(maxnz, {1, -1}), permutation_matrices<3>(), elementary_matrices<3>(),
@@ -23,11 +24,11 @@ std::vector<rmat<3, 3>> fam3_struct(int maxnz)
 
 void register_m3()
 {
-  for (unsigned p = 0; p < 4; ++p)
+  for (unsigned p = 0; p < 16; ++p)
     vrt::shard("m3/unary/" + std::to_string(p), [p] {
-      auto const all = fam3_all();
+      auto const all = fam3_unary();
       std::vector<rmat<3, 3>> part;
-      for (std::size_t i = p; i < all.size(); i += 4)
+      for (std::size_t i = p; i < all.size(); i += 16)
         part.push_back(all[i]);
       auto const ops = make_ops(part);
       shape_unary_all<3, 3>(ops, {-2, -1, 0, 1, 3});
